@@ -9,6 +9,7 @@ def parseOp : List String → Option Op
   | ["sendnonza", _, _, b] => (decStr b).map .sendNonza
   | ["sendraw", b] => (decStr b).map .sendRaw
   | ["ack", h] => h.toNat?.map .ack
+  | ["ackfail", h] => h.toNat?.map .ackFail
   | ["sendrawfail", b] => (decStr b).map .sendFail
   | ["sendptr", _, _, b] => (decStr b).map .sendStanza     -- Send(&stanza): a stanza like any other
   | ["req", _, b] => (decStr b).map .req
